@@ -247,7 +247,12 @@ class Check:
             return
         results = []
         n_ok = 0
+        # long behaviours first; at most `cap` replays
+        behaviours = sorted(behaviours, key=lambda b: -len(b[-1]["hist"]["A"]))
+        cap = max(60, num // 8)
         for b in behaviours:
+            if n_ok >= cap:
+                break
             try:
                 r = loopdriver.replay(b)
             except Exception as e:  # noqa
